@@ -45,6 +45,8 @@ CONFIGS = {
     'Madgwick-MARG':      ('Madgwick', 'MARG', None, True, 'left', 0.13, False),
     'Mahony-IMU':         ('Mahony', 'IMU', None, True, 'left', 0.02, False),
     'Mahony-MARG':        ('Mahony', 'MARG', None, True, 'left', 0.02, False),
+    'Mahony-IMU-b0':      ('Mahony', 'IMU', None, True, 'left', 0.02, False),         # a gyroscope with a constant bias, the bias given as b0: the filter carries a non-zero bias estimate
+    'Mahony-MARG-b0':     ('Mahony', 'MARG', None, True, 'left', 0.02, False),
     'EKF-IMU-NED':        ('EKF', 'IMU', 'NED', True, 'left', 0.006, False),
     'EKF-IMU-ENU':        ('EKF', 'IMU', 'ENU', True, 'left', 0.006, True),
     'EKF-MARG-NED':       ('EKF', 'MARG', 'NED', True, 'left', 0.006, False),
@@ -168,11 +170,14 @@ def build(name):
     elif filt == 'Mahony':
         if marg:
             s.m_ref = np.array([0.0, c, -sn])      # Mahony-MARG aligns the horizontal field with +y (its am2q start is ENU)
-        s.batch = lambda g, a, m, q0: only_q(F.Mahony(gyr=g, acc=a, mag=m).Q if marg else F.Mahony(gyr=g, acc=a).Q)
+        bias = np.array([0.06, -0.05, 0.04]) if name.endswith('-b0') else None      # rad/s, added to every gyroscope row and given to the filter as b0
+        bk = (lambda: {'b0': bias.copy()}) if bias is not None else (lambda: {})
+        gb = (lambda g: np.where(np.all(g == 0.0, axis=-1, keepdims=True), g, g + bias)) if bias is not None else (lambda g: g)      # (a dropped gyroscope row stays all-zero)
+        s.batch = lambda g, a, m, q0: only_q(F.Mahony(gyr=gb(g), acc=a, mag=m, **bk()).Q if marg else F.Mahony(gyr=gb(g), acc=a, **bk()).Q)
         def new(dtm=False):
             fk, dk = _dtm(dtm)
-            inst = F.Mahony(**fk)
-            return (lambda q, g, a, m: inst.updateMARG(q, g, a, m, **dk)) if marg else (lambda q, g, a, m: inst.updateIMU(q, g, a, **dk))
+            inst = F.Mahony(**fk, **bk())
+            return (lambda q, g, a, m: inst.updateMARG(q, gb(g), a, m, **dk)) if marg else (lambda q, g, a, m: inst.updateIMU(q, gb(g), a, **dk))
     elif filt == 'EKF':
         probe = F.EKF(magnetic_ref=DIP, frame=frame)
         s.g_ref, s.m_ref = np.array(probe.a_ref, float), np.array(probe.m_ref, float)
